@@ -96,6 +96,21 @@ theorem Bracket.transfer {α : Type} [LinearOrder α] {xs xs' : List α} {q : α
       exact absurd hq2 (not_lt.mpr hq)
     · rw [e1, e2]; exact ⟨hq3, hq4⟩
 
+/-- a knot is one of the two ends of its own bracket -/
+theorem knot_bracket {α : Type} [LinearOrder α] {xs : List α} {a i : Nat} (hs : StrictInc xs) (ha : a < xs.length)
+    (hb : Bracket xs xs[a] i) : a = i ∨ a = i + 1 := by
+  have hn := hs.1
+  have hin : ∃ (h : 0 < xs.length), xs[0] ≤ xs[a] ∧ xs[a] ≤ xs[xs.length - 1] :=
+    ⟨by omega, hs.le_of_le (Nat.zero_le a) ha, hs.le_of_le (by omega) (by omega)⟩
+  have hlt := hb.lt_len
+  obtain ⟨b1, b2⟩ := hb.between' hs hin
+  by_contra hcon
+  simp only [not_or] at hcon
+  rcases Nat.lt_or_ge a i with h1 | h1
+  · exact absurd b1 (not_le.mpr (hs.2 a i h1 (by omega)))
+  · have : i + 1 < a := by omega
+    exact absurd b2 (not_le.mpr (hs.2 (i + 1) a this ha))
+
 theorem rd_eq {β : Type} (l : List β) (i : Nat) (h : i < l.length) : rd l i = .ok l[i] := by
   simp [rd, h]
 
